@@ -174,7 +174,7 @@ def build(seed, tier, sites, cfg, n_value, g, sweep=False):
     plan = {'format': 1, 'property': PROPERTY, 'engine': 'c19', 'run_seed': seed, 'tier': tier,
             'knobs': {'mem_buff_size': g.choice([1, 8192])}, 'entry': 'cli', 'cfg': cfg, 'N': N,
             'conf': conf, 'act': act, 'files': files, 'sites': site_recs, 'sweep': sweep,
-            'layout': _layout(phases, first, timeout_lines), 'procs': {}}
+            'layout': _layout(phases, first, timeout_lines), 'procs': {}, 'keep': (not sweep) and g.random() < 0.25}
     _behaviours(plan)
     return plan
 
@@ -362,9 +362,11 @@ def execute(plan, scratch):
     w.populate(plan.get('files', {}))
     sim = kernel.Sim(plan, w)
     with patches.installed(sim):
-        res = host.run_cli(sim, ['t.case'])
-        leftover = w.tmp_entries()
+        res = host.run_cli(sim, (['--keep'] if plan.get('keep') else []) + ['t.case'])
+        leftover = w.tmp_entries() if not plan.get('keep') else []
         digest = sim.digest()
+    if plan.get('keep'):
+        res['stdout'] = (res['stderr'].split('\n') or [''])[0] + '\n'
     spawns = [{'tag': s['tag'], 'n': s['n'], 'waits': list(s['waits']), 'killed': s['killed'],
                'terminated': s['terminated'], 'reaped': s['reaped'], 'exit': s['exit'], 't_spawn': s['t_spawn'],
                't_kill': s.get('t_kill'), 't_term': s.get('t_term'), 't_end': s.get('t_end'), 'hang': s.get('hang', False),
